@@ -894,6 +894,30 @@ def corruptions_compose(rng):
         H = [[np.kron(Z, Z), [1.0]*len(A.dt), A.n_oper_identifiers[0] + '_0']]
         return (lambda: ff.extend([(A, 0)], N=2, additional_noise_Hamiltonian=H)), {'ValueError'}
 
+    def e_map_clash():
+        # identifier mappings that send two operators (of different pulses, or of one pulse) to one
+        # name; the same call with an injective mapping is accepted (checked first, so that the
+        # rejection cannot be for another reason)
+        dA = rd(rng, d=2, n_dt=2, n_c=2, n_n=2)
+        dB = rd(rng, d=2, n_dt=2, n_c=2, n_n=2)
+        dB['dt'] = dA['dt']
+        A, B = gens.build(dA), gens.build(dB)
+        ids = lambda P: list(P.c_oper_identifiers) + list(P.n_oper_identifiers)   # noqa
+        ma = {i: i + '_a' for i in ids(A)}
+        mb = {i: i + '_b' for i in ids(B)}
+        k = int(rng.integers(0, 4))
+        if k < 2:
+            ff.extend([(A, 0, ma), (B, 1, mb)])
+            key = 'n_oper_identifiers' if k == 0 else 'c_oper_identifiers'
+            mb[getattr(B, key)[int(rng.integers(0, 2))]] = ma[getattr(A, key)[int(rng.integers(0, 2))]]
+            return (lambda: ff.extend([(A, 0, ma), (B, 1, mb)])), {'ValueError'}
+        ff.remap(A, [0], oper_identifier_mapping=ma)
+        key = 'n_oper_identifiers' if k == 2 else 'c_oper_identifiers'
+        ma[getattr(A, key)[0]] = ma[getattr(A, key)[1]]
+        if rng.random() < 0.5:
+            return (lambda: ff.remap(A, [0], oper_identifier_mapping=ma)), {'ValueError'}
+        return (lambda: ff.extend([(A, 0, ma), (B, 1, mb)])), {'ValueError'}
+
     def e_ff_no_omega():
         A = one()
         return (lambda: ff.extend([(A, 0)], N=2, cache_filter_function=True)), {'ValueError'}
@@ -951,6 +975,29 @@ def corruptions_compose(rng):
                 (lambda: numeric.calculate_decay_amplitudes(C, 1/om2, om2, which='correlations'))
                 ][k], {'ValueError'}
 
+    def pc_after_other_request():
+        # pulse-correlation data computed at om, then another request moves the object to a grid of
+        # the same length (or the frequency-dependent caches are dropped): the pulse-correlation
+        # quantities at the new grid were never computed
+        A, B = two(2)
+        C = ff.concatenate([A, B], omega=om, calc_pulse_correlation_FF=True,
+                           which=['fidelity', 'generalized'][int(rng.integers(0, 2))])
+        om2 = om*1.5
+        j = int(rng.integers(0, 4))
+        if j == 0:
+            C.get_filter_function(om2)
+        elif j == 1:
+            C.get_control_matrix(om2)
+        elif j == 2:
+            C.get_total_phases(om2)
+        else:
+            C.cleanup('frequency dependent')
+        k = int(rng.integers(0, 3))
+        return [(lambda: ff.infidelity(C, 1/om2, om2, which='correlations')),
+                (lambda: numeric.calculate_decay_amplitudes(C, 1/om2, om2, which='correlations')),
+                (lambda: C.get_pulse_correlation_filter_function())
+                ][k], {'CalculationError'}
+
     def slice_empty():
         A = one(3)
         a = int(rng.integers(0, 6))
@@ -964,8 +1011,9 @@ def corruptions_compose(rng):
 
     return [(f.__name__, f) for f in
             (c_dim, c_basis, c_two_ids, c_two_ids_signed_zero, c_force_no_omega, c_pc_no_omega, c_not_pulse, c_nonconst, c_nonconst_small,
-             e_clash, e_dt, e_dim, e_small_N, e_dup_add, e_add_clash, e_ff_no_omega, s_shape, s_nonherm,
-             i_unknown, o_unknown, pc_not_computed, pc_other_freq, slice_empty, deriv_shape)]
+             e_clash, e_dt, e_dim, e_small_N, e_dup_add, e_add_clash, e_map_clash, e_ff_no_omega, s_shape, s_nonherm,
+             i_unknown, o_unknown, pc_not_computed, pc_other_freq, pc_after_other_request, slice_empty,
+             deriv_shape)]
 
 
 def valid_calls(rng):
